@@ -27,6 +27,10 @@ def build(term, path=()):
   return {k: build(sub, path + (k,)) for k, sub in term['kids']}
 
 
+def retag(x, f):
+  return {k: retag(v, f) for k, v in x.items()} if isinstance(x, dict) else f(x)
+
+
 def tree_sig(term):
   if term['t'] != 'dict':
     return term['t'][0]
@@ -97,8 +101,57 @@ def main(chk):
           chk.violation(f'C16:path_aware_map:{sig}', f'path_aware_map visited {sorted(calls)} and returned {out}; expected every leaf once and {want}', case)
       except Exception as e:
         chk.violation(f'C16:path_aware_map:{sig}', f'path_aware_map raised {type(e).__name__}: {e}', case)
+      # rendering: some leaves are None / False / 0 / an empty tuple (falsy values are leaves like any other)
+      falsy = [None, False, 0, ()]
+      xn = retag(x, lambda v: falsy[v % 5] if v % 5 < 4 else v)
+      calls = []
+      try:
+        out = traverse_util.path_aware_map(lambda p, v: (calls.append(p), ('seen', v))[1], xn)
+        if sorted(calls) != sorted(p for p in leaf_paths(case['x'])) or out != retag(xn, lambda v: ('seen', v)):
+          chk.violation(f'C16:path_aware_map:{sig}:falsy-leaves', f'path_aware_map on {xn} visited {sorted(calls)} and returned {out}; expected every leaf once', case)
+        for fl, unfl in ((traverse_util.flatten_dict, traverse_util.unflatten_dict), (traversals.flatten_mapping, traversals.unflatten_mapping)):
+          if unfl(fl(xn, keep_empty_nodes=True)) != xn or len(fl(xn)) != len(list(leaf_paths(case['x']))):
+            chk.violation(f'C16:falsy-leaves:{sig}', f'flatten / unflatten of {xn} is not the identity or loses leaves', case)
+      except Exception as e:
+        chk.violation(f'C16:path_aware_map:{sig}:falsy-leaves', f'raised {type(e).__name__}: {e}', case)
   chk.sample({'spec': 'Traverse', 'case': {k: res['exports'][7][k] for k in ('x', 'keep', 'ld', 'flat')}})
   chk.cov['tree_cases'] = n
+
+  # ---- one sub-mapping reachable under two keys (tied sub-trees): every path is listed, conversions stay lossless
+  shared = {'w': 1, 'n': {'v': 2}}
+  xa = {'enc': shared, 'dec': shared, 'o': 3, 'deep': {'again': shared}}
+  want_paths = sorted([('enc', 'w'), ('enc', 'n', 'v'), ('dec', 'w'), ('dec', 'n', 'v'), ('o',), ('deep', 'again', 'w'), ('deep', 'again', 'n', 'v')])
+  for api, fl, unfl in (('traverse_util', traverse_util.flatten_dict, traverse_util.unflatten_dict),
+                        ('nnx.traversals', traversals.flatten_mapping, traversals.unflatten_mapping)):
+    chk.count(('aliased', api))
+    try:
+      flat = fl(xa)
+      if sorted(flat) != want_paths or unfl(flat) != xa:
+        chk.violation(f'C16:{api}:aliased-sub-mapping', f'flatten lists {sorted(flat)}, expected {want_paths}; round trip equal: {unfl(flat) == xa}', {})
+    except Exception as e:
+      chk.violation(f'C16:{api}:aliased-sub-mapping', f'raised {type(e).__name__}: {str(e)[:160]}', {})
+  try:
+    chk.count(('aliased', 'State'))
+    tied = nnx.State({'w': nnx.VariableState(nnx.Param, jnp.asarray(1)), 'n': {'v': nnx.VariableState(nnx.BatchStat, jnp.asarray(2))}})
+    sa = nnx.State({'enc': tied, 'dec': tied, 'o': nnx.VariableState(nnx.Param, jnp.asarray(3))})
+    paths = sorted(tuple(p) for p, _ in nnx.to_flat_state(sa))
+    wantp = sorted([('enc', 'w'), ('enc', 'n', 'v'), ('dec', 'w'), ('dec', 'n', 'v'), ('o',)])
+    pure = nnx.to_pure_dict(sa)
+    par, rest = nnx.split_state(sa, nnx.Param, ...)
+    back = nnx.merge_state(rest, par)
+    bad = []
+    if paths != wantp:
+      bad.append(f'to_flat_state lists {paths}, expected {wantp}')
+    if sorted(traversals.flatten_mapping(pure)) != wantp:
+      bad.append(f'to_pure_dict holds {sorted(traversals.flatten_mapping(pure))}')
+    if sorted(tuple(p) for p, _ in nnx.to_flat_state(back)) != wantp or sorted(tuple(p) for p, _ in nnx.to_flat_state(par)) != [('dec', 'w'), ('enc', 'w'), ('o',)]:
+      bad.append('split_state / merge_state lose paths')
+    if sorted(tuple(p) for p, _ in nnx.to_flat_state(sa - par)) != [('dec', 'n', 'v'), ('enc', 'n', 'v')]:
+      bad.append(f's - params = {sorted(tuple(p) for p, _ in nnx.to_flat_state(sa - par))}')
+    for b in bad:
+      chk.violation('C16:state:aliased-sub-state', b, {})
+  except Exception as e:
+    chk.violation('C16:state:aliased-sub-state', f'raised {type(e).__name__}: {str(e)[:160]}', {})
 
   # ---- State set operations -------------------------------------------------------------------------
   st = tlc.require_ok(tlc.run('Traverse', 'Traverse_state.cfg', workers=1, timeout=900), 'Traverse state')
@@ -139,6 +192,8 @@ def main(chk):
         'diff': (lambda: nnx.statelib.diff(a, b), case['sub']),
     }
     for name, (fn, want) in ops.items():
+      if not case['compat'] and name in ('or', 'merge_state', 'State.merge'):
+        continue      # a leaf in one state where the other has a sub-mapping: the union is not a state
       key = f'C16:state:{name}:{"b-nonempty" if case["b"] else "b-empty"}'
       try:
         r = fn()
